@@ -373,6 +373,43 @@ func C18(t Tier) int {
 		}
 	}
 	nontrivial += typed
+	// the string form used in genesis files must round-trip for EVERY value the message validators admit: all topic
+	// names of one and two bytes over all 256 byte values are offered to the real validator (MsgCreateTopic.ValidateBasic);
+	// every admitted name goes through EncodeToString / DecodeFromString of the topic, writer and record keys
+	admitted := 0
+	ownerA := sdk.AccAddress(bytes.Repeat([]byte{0xab}, 20))
+	tryName := func(tn string) {
+		evals++
+		if aoltypes.NewMsgCreateTopic(tn, "", ownerA.String()).ValidateBasic() != nil {
+			return
+		}
+		admitted++
+		tk := aoltypes.TopicCompositeKey{OwnerAddress: ownerA, TopicName: tn}
+		var t2 aoltypes.TopicCompositeKey
+		if err := compkey.DecodeFromString(compkey.EncodeToString(&tk, aoltypes.GenesisKeySeparator), aoltypes.GenesisKeySeparator, &t2); err != nil || t2.TopicName != tn || !bytes.Equal(t2.OwnerAddress, ownerA) {
+			fail("string-form", fmt.Sprintf("string-form:topic:%q", tn), "topic name %q is admitted by the message validator but its genesis string key %q does not decode back (err=%v)", tn, compkey.EncodeToString(&tk, aoltypes.GenesisKeySeparator), err)
+		}
+		rk := aoltypes.RecordCompositeKey{OwnerAddress: ownerA, TopicName: tn, Offset: 7}
+		var r2 aoltypes.RecordCompositeKey
+		if err := compkey.DecodeFromString(compkey.EncodeToString(&rk, aoltypes.GenesisKeySeparator), aoltypes.GenesisKeySeparator, &r2); err != nil || r2.TopicName != tn || r2.Offset != 7 {
+			fail("string-form", fmt.Sprintf("string-form:record:%q", tn), "record key of topic %q does not round-trip through its genesis string form (err=%v)", tn, err)
+		}
+		wk := aoltypes.WriterCompositeKey{OwnerAddress: ownerA, TopicName: tn, WriterAddress: ownerA}
+		var w2 aoltypes.WriterCompositeKey
+		if err := compkey.DecodeFromString(compkey.EncodeToString(&wk, aoltypes.GenesisKeySeparator), aoltypes.GenesisKeySeparator, &w2); err != nil || w2.TopicName != tn {
+			fail("string-form", fmt.Sprintf("string-form:writer:%q", tn), "writer key of topic %q does not round-trip through its genesis string form (err=%v)", tn, err)
+		}
+	}
+	for a := 0; a < 256; a++ {
+		tryName(string([]byte{byte(a)}))
+		for b := 0; b < 256; b++ {
+			tryName(string([]byte{byte(a), byte(b)}))
+		}
+	}
+	if admitted < 65 {
+		fail("harness", "harness:validator-admits-too-little", "the topic validator admitted only %d of the one/two-byte names", admitted)
+	}
+	nontrivial += admitted
 	// typed decoders: wrong component counts and malformed components must yield an error, never a panic or a
 	// silently different key
 	good := sdk.AccAddress(bytes.Repeat([]byte{0xab}, 20))
